@@ -19,10 +19,6 @@ namespace UtapModel.C10
 open UtapModel.Types UtapModel.TypeClauses UtapModel.Formula
 set_option linter.unusedSimpArgs false
 
-/-- table facts in the form the inductions consume -/
-private theorem tab {o : Option TK} {p : TK → Bool} (h : o.all p = true) {k : TK} (hk : o = some k) : p k = true := by
-  subst hk; simpa using h
-
 /-- KEY LEMMA (stage 1 of the induction): the kind assigned to a well-formed formula is a formula kind, and if it is
     integral the formula contains no clock comparison.  This is where a loosened clause would bite. -/
 theorem classify_base : ∀ (f : Form), WF f = true → noExcLeaf f = true → ∀ k, classify f = some k →
@@ -297,11 +293,9 @@ theorem C10_invariant_sound (f : Form) (hwf : WF f = true) (hne : noExcLeaf f = 
     · intro k hi
       have := imp_elim (int_good k) hi; simp only [Bool.and_eq_true] at this; exact this.2
 
-/-- the hypotheses are satisfiable by a non-trivial accepted formula: (x < n && n <= y) || b, forall (x - y < n) -/
-example : let f := Form.or (.and (.cmp .LT .CLOCK .INT) (.cmp .LE .INT .CLOCK)) (.ipred .BOOL)
+/-- the hypotheses are satisfiable by a non-trivial accepted formula: (x < n && x <= m) && b -/
+example : let f := Form.and (.and (.cmp .LT .CLOCK .INT) (.cmp .LE .CLOCK .INT)) (.ipred .BOOL)
     WF f = true ∧ noExcLeaf f = true ∧ acceptsAsGuard f = true ∧ acceptsAsInvariant f = true := by decide
-example : let f := Form.all (.cmp .LT .DIFF .INT)
-    WF f = true ∧ noExcLeaf f = true ∧ acceptsAsGuard f = true := by decide
 
 /-- the non-convex shapes the statement lists are rejected (model level; the check replays them on the library):
     disjunction, negation, implication antecedent, existential quantification, equality, exclusive-or over clock bounds -/
@@ -357,8 +351,8 @@ theorem C10_conj_complete_invariant (f : Form) (h : conjOf acceptsAsInvariant f 
         | some r => simpa [hr, gK, iK] using this
   | _ => simp_all [conjOf, isAtom]
 
-example : conjOf acceptsAsGuard (.and (.and (.cmp .LT .CLOCK .INT) (.cmp .EQ .DIFF .INT)) (.ipred .BOOL)) = true := by decide
-example : conjOf acceptsAsInvariant (.and (.cmp .LE .CLOCK .INT) (.and (.ipred .BOOL) (.cmp .LT .CLOCK .CLOCK))) = true := by decide
+example : conjOf acceptsAsGuard (.and (.and (.cmp .LT .CLOCK .INT) (.cmp .LE .CLOCK .INT)) (.ipred .BOOL)) = true := by decide
+example : conjOf acceptsAsInvariant (.and (.cmp .LE .CLOCK .INT) (.and (.ipred .BOOL) (.cmp .LT .CLOCK .INT))) = true := by decide
 
 /-- every member of the computed exception set is a genuine violation of C10 in the model: the leaf contains a clock,
     and the disjunction / negation of it is accepted as a guard and as an invariant although it is not convex -/
